@@ -43,6 +43,9 @@ func applyBoth(op ref.Op, in []*ref.T, exact bool) core.Verdict {
 	if n := got.NElems(); n != ref.Size(exp.Shape) {
 		return core.Fail("%s: NElems %d, expected %d", op, n, ref.Size(exp.Shape))
 	}
+	if msg := wellFormed(got, g); msg != "" {
+		return core.Fail("%s on %v: %s", op, shapesStr(in), msg)
+	}
 	var same bool
 	var msg string
 	if exact {
@@ -54,6 +57,33 @@ func applyBoth(op ref.Op, in []*ref.T, exact bool) core.Verdict {
 		return core.Fail("%s on %v: %s", op, shapesStr(in), msg)
 	}
 	return core.Pass()
+}
+
+// wellFormed: the result's nested data is exactly what its shape announces
+// (directly through the hook, and through the public API: the global Sum must
+// be the sum of the elements At returns).
+func wellFormed(t tensor.Tensor, read *ref.T) string {
+	flat, nesting, dims, rect, ok := tensor.VerifInspect(t)
+	sh := read.Shape
+	if ok {
+		if !rect || !ref.SameShape(dims, sh) || len(flat) != ref.Size(sh) || (len(sh) > 0 && !ref.SameShape(nesting, sh)) {
+			return fmt.Sprintf("malformed result: Shape() %v but stored dims %v, nesting %v (rectangular=%v), %d stored elements", sh, dims, nesting, rect, len(flat))
+		}
+	}
+	sum, abs, finite := 0., 0., true
+	for _, v := range read.V {
+		sum += v
+		abs += math.Abs(v)
+		if math.IsNaN(v) || math.IsInf(v, 0) {
+			finite = false
+		}
+	}
+	if finite && !math.IsInf(abs, 0) {
+		if s := t.Sum(); math.Abs(s-sum) > 1e-9*(1+abs) {
+			return fmt.Sprintf("Sum() = %v but the elements returned by At add up to %v (shape %v)", s, sum, sh)
+		}
+	}
+	return ""
 }
 
 func shapesStr(in []*ref.T) string {
